@@ -462,7 +462,8 @@ def run_item(ctx, item):
         from partitura.musicanalysis.note_array_to_score import note_array_to_score
         mode = rng.choice(["beat", "div", "both"])
         # beat values must be exact in single precision and on the documented 1/256 grid
-        divs = rng.choice([1, 2, 4, 8, 16, 32] if mode != "div" else [1, 2, 4, 8, 12, 16, 24, 480])
+        # (beat values are read as rationals with a denominator up to 256: triplets and quintuplets are inside that grid)
+        divs = rng.choice([1, 2, 4, 8, 16, 32, 3, 5, 6, 12, 24] if mode != "div" else [1, 2, 4, 8, 12, 16, 24, 480])
         n = rng.randint(1, 25)
         onsets, t = [], 0
         rows = []
